@@ -179,10 +179,10 @@ func (ck *checker) pairs() {
 			}
 			// hidden state: forcing the lazy caches of either operand does not change the answer
 			if eb := ck.equals(x.b, y.a, x.d, y.d, "receiver's caches forced"); eb != e {
-				ck.violate("hidden-state", fmt.Sprintf("%s.Equals(%s) = %v, but %v after PType(), String(), ToKey() were called on the receiver", x.d, y.d, e, eb), x.d, y.d)
+				ck.violate("hidden-state", fmt.Sprintf("%s.Equals(%s) = %v, but %v when the receiver is a second, separately built copy on which PType(), String(), ToKey() were called", x.d, y.d, e, eb), x.d, y.d)
 			}
 			if eb := ck.equals(x.a, y.b, x.d, y.d, "argument's caches forced"); eb != e {
-				ck.violate("hidden-state", fmt.Sprintf("%s.Equals(%s) = %v, but %v after PType(), String(), ToKey() were called on the argument", x.d, y.d, e, eb), x.d, y.d)
+				ck.violate("hidden-state", fmt.Sprintf("%s.Equals(%s) = %v, but %v when the argument is a second, separately built copy on which PType(), String(), ToKey() were called", x.d, y.d, e, eb), x.d, y.d)
 			}
 			if i != j && (e || x.d.K == y.d.K) {
 				ck.res.Nontrivial(x.text + " ~ " + y.text)
